@@ -495,4 +495,45 @@ def bounded_names(prog, f, call, a0):
                 if v is not TOP and all(isinstance(x, str) for x in v):
                     return list(v)
         p = par
+    # dict dispatch: f is the handler stored under constant keys in a table {"size": self.__build_size, ...}; the dispatcher is
+    # called as self.<table method>(K)(ARG, ...) with K = ARG[0], and inside f the name looked up is <first parameter>[0]
+    if f.cls is not None and isinstance(a0, ast.Subscript) and isinstance(a0.value, ast.Name) and const_value(prog, f, a0.slice) == 0:
+        own = [q for q in f.params[1:]]
+        if own and a0.value.id == own[0]:
+            for g in f.cls.methods.values():
+                for d in walk_no_nested(g.node):
+                    if not isinstance(d, ast.Dict):
+                        continue
+                    keys = [const_value(prog, g, k) for k, v in zip(d.keys, d.values)
+                            if k is not None and isinstance(v, ast.Attribute) and v.attr == f.name]
+                    if not keys or not all(isinstance(k, str) for k in keys):
+                        continue
+                    # f must not also be the fallback of the lookup
+                    fallback = any(isinstance(c, ast.Call) and call_name(c) == "get" and len(c.args) == 2 and isinstance(c.args[1], ast.Attribute)
+                                   and c.args[1].attr == f.name for c in walk_no_nested(g.node))
+                    gparams = g.params[1:]
+                    if fallback or len(gparams) != 1:
+                        continue
+                    ok_sites = 0
+                    bad_sites = 0
+                    for h in f.cls.methods.values():
+                        for c in walk_no_nested(h.node):
+                            if isinstance(c, ast.Call) and isinstance(c.func, ast.Call) and call_name(c.func) == g.name and c.func.args and c.args:
+                                k_, arg0 = c.func.args[0], c.args[0]
+                                kds = [k_]
+                                if isinstance(k_, ast.Name):
+                                    kds = [a.value for a in walk_no_nested(h.node) if isinstance(a, ast.Assign)
+                                           and any(isinstance(t, ast.Name) and t.id == k_.id for t in a.targets)]
+
+                                def from_first(e):
+                                    # ARG[0] itself or a string method applied to it (the `not` prefix removed)
+                                    while isinstance(e, ast.Call) and isinstance(e.func, ast.Attribute):
+                                        e = e.func.value
+                                    return isinstance(e, ast.Subscript) and norm(e.value) == norm(arg0) and const_value(prog, h, e.slice) == 0
+                                if kds and all(from_first(e) for e in kds):
+                                    ok_sites += 1
+                                else:
+                                    bad_sites += 1
+                    if ok_sites and not bad_sites:
+                        return list(keys)
     return None
